@@ -58,18 +58,92 @@ theorem reference_rejects_iff (x0 : Operand) (rest : Tail) :
   unfold reference; cases clashFree rest <;> simp
 
 /-- non-vacuity: `-a0 + a1 * !a2 < a3` groups as `((-a0) + (a1 * (!a2))) < a3`;
+    `-a0.f1(…) * a1?` groups as `(-((a0.f1)(…))) * (a1?)`;
     `a0 < a1 + a2 < a3` and `a0 && a1 || a2` are rejected, by the model run on
     the generated table. -/
 example :
     parseExpr (relative_associativity false)
-      (render ⟨[.neg], 0⟩ [(.Add, ⟨[], 1⟩), (.Mul, ⟨[.not], 2⟩), (.Lt, ⟨[], 3⟩)]) =
+      (render ⟨[.neg], 0, []⟩ [(.Add, ⟨[], 1, []⟩), (.Mul, ⟨[.not], 2, []⟩), (.Lt, ⟨[], 3, []⟩)]) =
       .ok (.bin .Lt (.bin .Add (.neg (.leaf 0)) (.bin .Mul (.leaf 1) (.not (.leaf 2)))) (.leaf 3)) [] ∧
     parseExpr (relative_associativity false)
-      (render ⟨[], 0⟩ [(.Lt, ⟨[], 1⟩), (.Add, ⟨[], 2⟩), (.Lt, ⟨[], 3⟩)]) = .chained .Lt .Lt ∧
+      (render ⟨[.neg], 0, [.field 1, .call 0]⟩ [(.Mul, ⟨[], 1, [.try_]⟩)]) =
+      .ok (.bin .Mul (.neg (.post (.call 0) (.post (.field 1) (.leaf 0)))) (.post .try_ (.leaf 1))) [] ∧
     parseExpr (relative_associativity false)
-      (render ⟨[], 0⟩ [(.And, ⟨[], 1⟩), (.Or, ⟨[], 2⟩)]) = .chained .Or .And ∧
-    reference ⟨[], 0⟩ [(.Sub, ⟨[], 1⟩), (.Sub, ⟨[], 2⟩)] =
+      (render ⟨[], 0, []⟩ [(.Lt, ⟨[], 1, []⟩), (.Add, ⟨[], 2, []⟩), (.Lt, ⟨[], 3, []⟩)]) = .chained .Lt .Lt ∧
+    parseExpr (relative_associativity false)
+      (render ⟨[], 0, []⟩ [(.And, ⟨[], 1, []⟩), (.Or, ⟨[], 2, []⟩)]) = .chained .Or .And ∧
+    reference ⟨[], 0, []⟩ [(.Sub, ⟨[], 1, []⟩), (.Sub, ⟨[], 2, []⟩)] =
       some (.bin .Sub (.bin .Sub (.leaf 0) (.leaf 1)) (.leaf 2)) := by decide
+
+/-! ### T2b prefix operators against postfix forms and binary operators
+
+The documented grammar (the EBNF comments of src/parser/expr.rs):
+
+```
+Negation ::= ('!' | '-')* Access
+Access   ::= Atom ('?' | Args | '.' Ident)*      -- the loop of `Parser::access`
+```
+
+so a prefix operator applies to the COMPLETE access expression that follows
+it — atom plus every method call, field access and `?` — and the result is one
+operand of the binary operators: `-2.0f64.pow(2.0)` is `-(2.0f64.pow(2.0))`,
+`-x.abs() * y` is `(-(x.abs())) * y`. The atom is any atom (`atom n`): an
+identifier, a literal of any spelling, a parenthesised expression. -/
+
+/-- the tree of `a<n>` followed by the postfix forms `ps` -/
+abbrev postfixed (n : Nat) (ps : List Post) : Tree := accessTree n ps
+
+/-- T2b-1. A prefix operator binds LOOSER than every postfix form: for EVERY
+    prefix chain `pre`, EVERY atom and EVERY chain `ps` of postfix forms (`?`,
+    argument lists, `.name`, in any order and number), the model of
+    `negation`/`access` (inside `binop_expr`, generated relation) parses
+    `pre atom ps` to `pre` applied to the whole `atom ps`. -/
+theorem prefix_looser_than_postfix (dbg : Bool) (pre : List UnOp) (n : Nat) (ps : List Post) :
+    parseExpr (relative_associativity dbg) (pre.map UnOp.tok ++ (.atom n :: ps.map Tok.post)) =
+      .ok (pre.foldr UnOp.apply (postfixed n ps)) [] := by
+  have h := (pratt_correct dbg ⟨pre, n, ps⟩ []).1 (Operand.tree ⟨pre, n, ps⟩)
+    (by simp [reference, clashFree, refTree_nil])
+  simpa [render, renderTail, Operand.toks, Operand.tree] using h
+
+/-- … and the other grouping is a different tree whenever there is a prefix
+    operator and a postfix form at all: the statement above is not vacuous -/
+theorem prefix_postfix_groupings_differ (u : UnOp) (n : Nat) (p : Post) (ps : List Post) :
+    u.apply (postfixed n (p :: ps)) ≠ accessTreeOn (u.apply (.leaf n)) (p :: ps) := by
+  intro h
+  have h2 := congrArg Tree.isPost h
+  rw [accessTreeOn_isPost] at h2
+  cases u <;> simp [UnOp.apply, Tree.isPost] at h2
+
+/-- T2b-2. A prefix operator binds TIGHTER than every binary operator: for
+    EVERY binary operator `o`, `pre atom ps o y` (with `y` any operand, itself
+    with prefix operators and postfix forms) is `(pre (atom ps)) o y` — on the
+    left of the operator — and `y o pre atom ps` is `y o (pre (atom ps))` on
+    its right (so `a - -b.f()` is `a - (-(b.f()))`). -/
+theorem prefix_tighter_than_binary (dbg : Bool) (pre : List UnOp) (n : Nat) (ps : List Post)
+    (o : BinOp) (y : Operand) :
+    parseExpr (relative_associativity dbg)
+        (pre.map UnOp.tok ++ (.atom n :: ps.map Tok.post) ++ (.op o :: y.toks)) =
+      .ok (.bin o (pre.foldr UnOp.apply (postfixed n ps)) y.tree) [] ∧
+    parseExpr (relative_associativity dbg)
+        (y.toks ++ (.op o :: (pre.map UnOp.tok ++ (.atom n :: ps.map Tok.post)))) =
+      .ok (.bin o y.tree (pre.foldr UnOp.apply (postfixed n ps))) [] := by
+  constructor
+  · have h := (pratt_correct dbg ⟨pre, n, ps⟩ [(o, y)]).1 _ (reference_single _ o y)
+    simpa [render, renderTail, Operand.toks, Operand.tree] using h
+  · have h := (pratt_correct dbg y [(o, ⟨pre, n, ps⟩)]).1 _ (reference_single _ o _)
+    simpa [render, renderTail, Operand.toks, Operand.tree] using h
+
+/-- non-vacuity, on the seeded witness: `- lit . pow ( … )` is
+    `Negate (call (field lit pow) …)`, not `call (field (Negate lit) pow) …`;
+    `1.0 + - lit . abs ( )`; `! a . b ?`. -/
+example :
+    parseExpr (relative_associativity false) [.op .Sub, .atom 0, .post (.field 0), .post (.call 0)] =
+      .ok (.neg (.post (.call 0) (.post (.field 0) (.leaf 0)))) [] ∧
+    parseExpr (relative_associativity false)
+        [.atom 1, .op .Add, .op .Sub, .atom 0, .post (.field 0), .post (.call 0)] =
+      .ok (.bin .Add (.leaf 1) (.neg (.post (.call 0) (.post (.field 0) (.leaf 0))))) [] ∧
+    parseExpr (relative_associativity false) [.bang, .atom 0, .post (.field 1), .post .try_] =
+      .ok (.not (.post .try_ (.post (.field 1) (.leaf 0)))) [] := by decide
 
 /-! ## T3 literals -/
 
